@@ -34,10 +34,13 @@ def filter_kwargs_conformance():
         return ('B', a, b, q)
     same_name_b.__name__ = same_name_a.__name__ = 'same_name'
     same_name_b.__qualname__ = same_name_a.__qualname__ = 'same_name'
+    @util.deprecated(version='0', version_removed='1')
+    def f_decorated(a, b, p=1, q=2):
+        return ('decorated', a, b, p, q)
     keys = ['p', 'q', 'zzz', 'kw']
     n = 0
     failures = []
-    for f in (f_plain, f_kwonly, f_star, f_none, same_name_a, same_name_b, same_name_a):
+    for f in (f_plain, f_kwonly, f_star, f_none, same_name_a, same_name_b, same_name_a, f_decorated):
         import inspect
         sig = inspect.signature(f)
         names = [k for k, p in sig.parameters.items() if p.kind in (p.POSITIONAL_ONLY, p.POSITIONAL_OR_KEYWORD)]
@@ -58,22 +61,22 @@ def filter_kwargs_conformance():
     return n, failures
 
 
-def run(tier, seed, results):
+def run(tier, seed, results, tasks=None, prop='C03'):
     out = []
     t0 = time.time()
     n, failures = filter_kwargs_conformance()
-    out.append(dict(name='util.filter_kwargs / has_kwargs conform to the contract E4 assumes', bound='6 callees (4 shapes, 2 sharing a __name__) x all 16 subsets of 4 keyword names, called in sequence in one process',
+    out.append(dict(name='util.filter_kwargs / has_kwargs conform to the contract E4 assumes', bound='7 callees (4 shapes, 2 sharing a __name__, 1 wrapped by @util.deprecated) x all 16 subsets of 4 keyword names, called in sequence in one process',
                     cases=n, exhaustive=True, failures=failures[:5], wall_s=round(time.time() - t0, 2)))
     if failures:
         results.append(dict(kind='engine', engine='bundles', name='util.filter_kwargs', status='ok', detail='', paths=0, inlined=[], used_contracts=[],
-                            gen_time=0, wall=0, lib_used=[], props=['C03'],
-                            obligations=[dict(id='util.filter_kwargs#bounded:contract', kind='bounded', label='contract', props=['C03'], line=None,
+                            gen_time=0, wall=0, lib_used=[], props=[prop],
+                            obligations=[dict(id='util.filter_kwargs#bounded:contract', kind='bounded', label='contract', props=[prop], line=None,
                                               note=failures[0], expect='unsat', verdict='refuted', backend='native-exhaustive', time=0.0,
                                               model={'example': failures[0]}, goal='filter_kwargs passes exactly the accepted keywords',
                                               native=dict(confirmed=True, example=failures[0]), finding=None)]))
     from . import bundles
     n_inputs = 4 if tier == 'quick' else 12
-    for task in bundles.TASKS:
+    for task in (tasks or bundles.TASKS):
         t1 = time.time()
         try:
             bad, cases = bundles.differential(task, bundles.kw_sets_for(task), seed, n_inputs)
@@ -86,8 +89,8 @@ def run(tier, seed, results):
                         cases=cases, exhaustive=False, failures=bad[:3], wall_s=round(time.time() - t1, 2)))
         if bad:
             results.append(dict(kind='engine', engine='bundles', name='%s.evaluate' % task, status='ok', detail='', paths=0, inlined=[], used_contracts=[],
-                                gen_time=0, wall=0, lib_used=[], props=['C03'],
-                                obligations=[dict(id='%s.evaluate#bounded:differential' % task, kind='bounded', label='differential', props=['C03'],
+                                gen_time=0, wall=0, lib_used=[], props=[prop],
+                                obligations=[dict(id='%s.evaluate#bounded:differential' % task, kind='bounded', label='differential', props=[prop],
                                                   line=None, note=str(bad[0])[:300], expect='unsat', verdict='refuted', backend='native', time=0.0,
                                                   model={'example': bad[0]}, goal='evaluate() equals the documented bundle natively',
                                                   native=dict(confirmed=True, example=bad[0]), finding=None)]))
